@@ -20,7 +20,7 @@ RULE = ("four case kinds. cpp_models (46%): random op lists (4-28 ops quick, 4-6
         "the state the driver printed); after EVERY op the raw state of all four objects is compared with the Coq model and inv_b is "
         "evaluated on model and observed state. cpp_cqm (27%): ops on ConstrainedQuadraticModel / Constraint / Expression (labels API, "
         "add_constraint copy/move/from QM/linear, set_objective, remove/fix/substitute variables, fix_variables, remove constraints, "
-        "copy/move/swap of whole CQMs, weak_ptr) with the native invariant after every op. py_dqm (11%): histories (3-24 calls quick, 3-50 thorough) of VALID calls on a real DiscreteQuadraticModel, through the Python wrapper with labels that differ from the indices or on the Cython object: add_variable (1-3 cases, <= 5 variables), set_linear, set_linear_case, set_quadratic_case with the two variables in either order, set_quadratic with a dict or a dense array (zeros skipped), add_linear_equality_constraint (duplicate cases, repeated variables, empty), offset, copy (history continues on the copy, the original is re-read at the end), to_numpy_vectors -> from_numpy_vectors (continues on the rebuilt object); after EVERY call the raw adj_, case starts, the case-level BQM (neighbourhood order as emitted), both interaction counts, every degree, get_quadratic of every ordered pair (dict, array form and get_quadratic_case cross-checked) and two energies are compared with Model/DqmNative.v, and dinv_b is evaluated on the model and on the observed state. py (16%): 6 malformed calls each against "
+        "copy/move/swap of whole CQMs, weak_ptr) with the native invariant after every op. py_dqm (11%): histories (3-24 calls quick, 3-50 thorough) of VALID calls on a real DiscreteQuadraticModel, through the Python wrapper with labels that differ from the indices or on the Cython object: add_variable (1-3 cases, <= 5 variables), set_linear, set_linear_case, set_quadratic_case with the two variables in either order, set_quadratic with a dict or a dense array (zeros skipped), add_linear_equality_constraint (duplicate cases, repeated variables, empty), offset, copy (history continues on the copy, the original is re-read at the end), to_numpy_vectors -> from_numpy_vectors (continues on the rebuilt object); after EVERY call the raw adj_, case starts, the case-level BQM (neighbourhood order as emitted), both interaction counts, every degree, get_quadratic of every ordered pair (dict, array form and get_quadratic_case cross-checked) and two energies are compared with Model/DqmNative.v, and dinv_b is evaluated on the model and on the observed state. py (16%): 6 calls each, in child interpreters; besides the malformed-argument catalogue two families added in round 5: 'fresh' - invalid calls that carry a FRESH hashable label where the entry point creates variables on the fly (the same fresh label twice, fresh label followed by an invalid label / bias, iterables whose later item is malformed, new variables with wrong vartype / bounds / case count, whole models with a fresh and a conflicting variable) for BQM (4 fixtures, 3 dtypes), QM, CQM (model, objective and constraint views), DQM: a raise must leave the full dump (variables included) unchanged; 'reduce' - reduce_linear / reduce_neighborhood / reduce_quadratic and the max / min / sum of the linear, quadratic and adj[v] views on degree-0 variables (middle and end of the index range) of models that have interactions, on interaction-free and on empty models, with and without initializer / default, 6 functions: no crash, no change, the empty cases without initializer raise, and every numeric result is recomputed from the dump taken before the call (functools.reduce over the dumped biases in index order). Generic: 6 malformed calls each against "
         "BQM (float64/float32/object), QM, CQM, DQM in child interpreters, 10 s limit per call; thorough adds a valgrind sample. "
         "non-trivial = at least 3 executed ops / any py case; distinct by case JSON")
 TRUSTED = ["model for the py_dqm cases: coq/theories/Model/DqmNative.v, ChkC20Dqm.v (hand written mirror of cydiscrete_quadratic_model.pyx)",
